@@ -203,6 +203,7 @@ class Formatter:
     }
 
     _PARSE_TOKENS: ClassVar[dict[str, Callable[[str], Any]]] = {
+        "Y": lambda year: int(year),
         "YYYY": lambda year: int(year),
         "YY": lambda year: int(year),
         "Q": lambda quarter: int(quarter),
